@@ -96,6 +96,7 @@ var shapes = map[string]*shape{
 	"Swapped":      stc("map", fd("Src", shStr).as("Dst"), fd("Dst", shStr).as("Src")),
 	"Chain":        stc("map", fd("A", shStr).as("B"), fd("B", shStr).as("C"), fd("C", shStr).as("A")),
 	"Clash":        stc("map", fd("A", stc("map", fd("N", shInt))), fd("B", stc("map", fd("N", shInt), fd("M", shStr)))),
+	"HasMapAny":    stc("map", fd("M", mpo(shAny))),
 	"BigU":         stc("map", fd("U", shInt), fd("L", lst(shInt, false)), fd("N", lst(lst(shInt, false), false))),
 	"pk1.Foo":      stc("map", fd("A", shStr), fd("N", shInt)),
 	"pk2.Foo":      stc("map", fd("X", shBool), fd("L", lst(shInt, false))),
